@@ -195,8 +195,8 @@ theorem single_open (a : Nat) (p : Pool) (h : Single a p) : openCount p = openOf
       have hla : l.auth = a := hl l List.mem_cons_self
       have ih' := ih (fun x hx => hl x (List.mem_cons_of_mem _ hx))
       cases hc : l.conn with
-      | none => simp [List.filterMap_cons, List.filter_cons, hc, ih']
-      | some c => simp [List.filterMap_cons, List.filter_cons, hc, hla, ih']
+      | none => simp [hc, ih']
+      | some c => simp [hc, hla, ih']
   rcases hav with h0 | ⟨v, hv⟩
   · simp [openCount, openOf, idleConns, h0, lookup, hleased]
   · simp [openCount, openOf, idleConns, hv, lookup, hleased]
@@ -446,7 +446,7 @@ theorem excl_release (now i : Nat) (ka : Bool) (p : Pool) (h : Excl p) : Excl (r
         by_cases hb : b = a
         · subst hb
           simp only [idsOf, lookup_store_same, List.map_append, List.map_cons, List.map_nil, e2] at hnd hlt ⊢
-          simp only [idsOf, e1] at hnd hlt
+          simp only [e1] at hnd hlt
           have hperm : ((lookup b p.avail).map (·.id) ++ [c.id] ++ (l1 ++ l2)).Perm
               ((lookup b p.avail).map (·.id) ++ (l1 ++ c.id :: l2)) := by
             rw [List.append_assoc]
@@ -1028,7 +1028,7 @@ theorem hist_stepReq (cfg : Cfg) (w : World) (a : Nat) (o : ReqOpts) (m : Mode) 
   unfold stepReq Hist
   simp only [World.see]
   apply world_apply_hist
-  simp only [World.see]
+  simp only []
   apply world_apply_hist
   exact h
 
@@ -1039,7 +1039,7 @@ theorem hist_stepWave (cfg : Cfg) (w : World) (auths : List Nat) (h : Hist cfg w
   simp only [World.see]
   apply world_apply_hist
   apply world_apply_hist
-  simp only [World.see]
+  simp only []
   apply world_apply_hist
   exact h
 
